@@ -52,6 +52,8 @@ func (g *GTPv2) DecodeFromBytes(data []byte, df gopacket.DecodeFeedback) error {
 	}
 
 	cIndex := hLen
+	g.TEID = 0
+	g.IEs = g.IEs[:0]
 	if g.TEIDflag {
 		hLen += 4
 		cIndex += 4
